@@ -219,7 +219,7 @@ def hier_objects(ctx, chi, rng, i, subs=None, n_ids=None):
     try:
         with np.errstate(all='ignore'):
             v = hll(x)
-            if not cov_pooled:
+            if True:
                 _, g = hll.evaluateS1(x)
                 ctx.spec('C17.Hierarchical.gradient_length', len(g) == n, inp, {'len': len(g), 'n': n})
     except Exception as e:  # noqa
